@@ -546,7 +546,8 @@ theorem abortFlow_done_noop (fuel : Nat) (c : FUid) (scores : List Score) (s : V
     (hx : OMap.lookup c s.r.fx = some x) (ha : x.activated = 0)
     (hi : findInst s.ixs.ix c = some i) (hd : i.status.done = true) :
     abortFlow (fuel + 1) c scores true s = .ok () s := by
-  have hira : isReferenceActivated c s = .ok false s := by
+  have hira : deactivatesRef true c s = .ok false s := by
+    rw [deactivatesRef_true]
     unfold isReferenceActivated getInstX getInstX?
     simp only [bind, EStateM.bind, getRest, get, getThe, MonadStateOf.get, EStateM.get, pure, EStateM.pure, hx]
     cases x.parentUid with
